@@ -21,7 +21,7 @@ func init() {
 	fw.Register(&fw.Check{
 		ID:    "C07",
 		Level: "exploration",
-		Rule: "getelementptr grid: 10 source element types (scalars, arrays, literal/packed/identified structs nested to depth 4, a vector) x 6 bases (pointer in address space 0/1/5, fixed vector of pointers, scalable vector of pointers, global) x index lists of length 0-5 drawn so that every index form occurs (i1/i8/i32/i64/i128 constants, non-constant scalar, zeroinitializer/splat/non-splat/undef/poison vector constants, non-constant fixed and scalable vectors, inrange, constant expressions). The result type predicted by the monitor's model is embedded in a use (store / initializer / alias type) and the module must be accepted by llvm-as. Compared with the prediction: the parser's type for the instruction, for the constant expression and on the alias pre-resolution path; ir.NewGetElementPtr and constant.NewGetElementPtr rebuilt from the parsed operands; the type recomputed after clearing the cache; gep.ResultType called directly through the export hook. " +
+		Rule: "getelementptr grid: 10 source element types (scalars, arrays, literal/packed/identified structs nested to depth 4, a vector) x 6 bases (pointer in address space 0/1/5, fixed vector of pointers, scalable vector of pointers, global) x index lists of length 0-5 drawn so that every index form occurs (i1/i8/i32/i64/i128 constants, non-constant scalar, zeroinitializer/splat/non-splat/undef/poison vector constants, vector constants with one undef/poison/constant-expression element, vectors of i1, vector types spelled through type aliases, non-constant fixed and scalable vectors, inrange, constant expressions). The result type predicted by the monitor's model is embedded in a use (store / initializer / alias type) and the module must be accepted by llvm-as. Compared with the prediction: the parser's type for the instruction, for the constant expression and on the alias pre-resolution path; ir.NewGetElementPtr and constant.NewGetElementPtr rebuilt from the parsed operands; the type recomputed after clearing the cache; gep.ResultType called directly through the export hook. " +
 			"non-trivial = a gep with at least two indices or a vector base/index; distinct by the gep text",
 		Gen:           genC07,
 		MinNontrivial: 300,
@@ -130,7 +130,7 @@ func (g *c07Gen) walk(src *mgen.Type, vecN int, vecSc bool, constOnly bool, maxL
 					vs = true
 				}
 			}
-			it := []string{"i64", "i32", "i8"}[rng.Intn(3)]
+			it := []string{"i64", "i32", "i8", "i1"}[rng.Intn(4)]
 			vt := fmt.Sprintf("<%d x %s>", vn, it)
 			if vs {
 				vt = fmt.Sprintf("<vscale x %d x %s>", vn, it)
@@ -164,13 +164,30 @@ func (g *c07Gen) walk(src *mgen.Type, vecN int, vecSc bool, constOnly bool, maxL
 					if !splat {
 						c = rng.Intn(3)
 					}
-					es = append(es, fmt.Sprintf("%s %d", it, c))
+					if it == "i1" {
+						es = append(es, "i1 "+[]string{"false", "true"}[c%2])
+					} else {
+						es = append(es, fmt.Sprintf("%s %d", it, c))
+					}
+				}
+				odd := ""
+				if rng.Intn(3) == 0 {
+					// one element without a concrete value
+					k := rng.Intn(vn)
+					switch e := rng.Intn(3); {
+					case e == 0:
+						es[k], odd = it+" undef", "+undef-element"
+					case e == 1:
+						es[k], odd = it+" poison", "+poison-element"
+					case it == "i64":
+						es[k], odd = "i64 ptrtoint (i32* @anchor to i64)", "+constexpr-element"
+					}
 				}
 				idx = append(idx, vt+" <"+strings.Join(es, ", ")+">")
 				if splat {
-					forms = append(forms, "vector-splat")
+					forms = append(forms, "vector-splat"+odd)
 				} else {
-					forms = append(forms, "vector-nonsplat")
+					forms = append(forms, "vector-nonsplat"+odd)
 				}
 			case !constOnly:
 				// non-constant vector index of this shape
@@ -211,7 +228,7 @@ func c07Expected(elem *mgen.Type, as, n int, sc bool) string {
 	return p.String()
 }
 
-const c07Params = "i64 %i, <2 x i64> %vi2i64, <4 x i64> %vi4i64, <2 x i32> %vi2i32, <4 x i32> %vi4i32, <2 x i8> %vi2i8, <4 x i8> %vi4i8, <vscale x 2 x i64> %si2i64, <vscale x 4 x i64> %si4i64, <vscale x 2 x i32> %si2i32, <vscale x 4 x i32> %si4i32, <vscale x 2 x i8> %si2i8, <vscale x 4 x i8> %si4i8"
+const c07Params = "i64 %i, <2 x i64> %vi2i64, <4 x i64> %vi4i64, <2 x i32> %vi2i32, <4 x i32> %vi4i32, <2 x i8> %vi2i8, <4 x i8> %vi4i8, <vscale x 2 x i64> %si2i64, <vscale x 4 x i64> %si4i64, <vscale x 2 x i32> %si2i32, <vscale x 4 x i32> %si4i32, <vscale x 2 x i8> %si2i8, <vscale x 4 x i8> %si4i8, <2 x i1> %vi2i1, <4 x i1> %vi4i1, <vscale x 2 x i1> %si2i1, <vscale x 4 x i1> %si4i1"
 
 func genC07(ctx *fw.Ctx) []fw.Case {
 	var cases []fw.Case
@@ -233,7 +250,7 @@ func c07Batch(r *fw.Rec, idx int) {
 	var sb strings.Builder
 	fmt.Fprintf(&sb, "%%S = type %s\n@anchor = global i32 0\n", named.Body)
 	for _, vn := range []int{2, 4} {
-		for _, it := range []string{"i64", "i32", "i8"} {
+		for _, it := range []string{"i64", "i32", "i8", "i1"} {
 			fmt.Fprintf(&sb, "%s = type <%d x %s>\n%s = type <vscale x %d x %s>\n", c07AliasName(vn, it, false), vn, it, c07AliasName(vn, it, true), vn, it)
 		}
 	}
